@@ -63,7 +63,7 @@ def run(res, tier, seed, wd, replay=None):
     ]
     exhaustive(res, tier, wd)
     build_harness()
-    runs_d, ops = (24, 120) if tier == "quick" else (400, 200)
+    runs_d, ops = (27, 120) if tier == "quick" else (450, 200)
     runs_c = 27 if tier == "quick" else 540
     if replay:
         p = json.load(open(replay))
